@@ -2,6 +2,7 @@
 import glob
 import json
 import os
+import random
 import re
 import time
 
@@ -39,6 +40,18 @@ def corpus_programs():
     return out
 
 
+def replay_payload(ctx):
+    """the payload of `--replay <file>` ({} when absent or unreadable)"""
+    if not ctx.get("replay"):
+        return {}
+    try:
+        with open(ctx["replay"]) as f:
+            d = json.load(f)
+        return d if isinstance(d, dict) else {}
+    except Exception:  # pylint: disable=broad-except
+        return {}
+
+
 def sizes(tier):
     if tier == "thorough":
         return {"random": 6000, "micro_step": 1, "envs": 120}
@@ -50,6 +63,10 @@ def program_streams(ctx, micro_prefixes=None, want_random=True):
     sz = sizes(ctx["tier"])
     rng = ctx["rng"]
     progs = []
+    rp = replay_payload(ctx)
+    if rp.get("program"):
+        # --replay <file>: the recorded failing program runs first, with the oracle switched on (kf_free) and its environment
+        progs.append(("replay", rp["program"], {"stream": "replay", "kf_free": True}))
     for name, text in corpus_programs():
         progs.append(("corpus:" + name, text, {"stream": "corpus"}))
     for name, text in gen.adversarial_programs():
@@ -693,13 +710,8 @@ def c19_extra(ctx):
             lines.insert(k + 1, "pop") if rng.random() < 0.5 else None
             reqs.append(("cfg", f"v{len(reqs)}", "\n".join(lines), []))
     reqs += [("cfg", f"d{n}", t, []) for n, t in enumerate(c19_directed(rng, ctx["tier"]))]
-    if ctx.get("replay"):
-        try:
-            rp = json.load(open(ctx["replay"]))
-            if rp.get("program"):
-                reqs.insert(0, ("cfg", "replay", rp["program"], []))
-        except Exception:  # pylint: disable=broad-except
-            pass
+    if replay_payload(ctx).get("program"):
+        reqs.insert(0, ("cfg", "replay", replay_payload(ctx)["program"], []))
     m, i = corr.run_both(reqs)
     nd = 0
     nv = 0
@@ -1259,6 +1271,11 @@ def run_c13(ctx):
     rng = ctx["rng"]
     n = 150 if ctx["tier"] == "quick" else 1500
     reqs = [("group", f"g{k}", gen_group(rng) if k % 3 == 0 else gen_group_directed(rng), []) for k in range(n)]
+    rp = replay_payload(ctx)
+    if rp.get("config"):
+        reqs.insert(0, ("group", "replay", rp["config"], []))
+        if rp.get("meta"):
+            DIRECTED_META[rp["config"]] = rp["meta"]
     fixed = directed_group_fixed()
     if ctx["tier"] == "quick":
         fixed = fixed[::2] + fixed[1::8]     # every second configuration (all shapes, both kinds of order) in the quick tier
@@ -1280,7 +1297,7 @@ def run_c13(ctx):
         if t in DIRECTED_META:
             nsem += 1
             for msg, grp in group_semantics_oracle(DIRECTED_META[t], b)[:1]:
-                ctx["violations"].append((msg, {"kind": "group-semantics", "config": t, "concrete_group": grp}))
+                ctx["violations"].append((msg, {"kind": "group-semantics", "config": t, "concrete_group": grp, "meta": DIRECTED_META[t]}))
         for d in b:
             if sorted(a.get(d, [])) != sorted(b[d]):
                 nd += 1
